@@ -5,7 +5,9 @@
    invoice request -> invoice (incl. responders echoing an altered request) built by two parties,
    every verification call by every party / API / nonce; invariant VerifySound (accept <=> the
    object derives unaltered from what the verifier created under its key material).  The same run
-   enumerates the builder field-presence subsets and the mutation-class verdict table.
+   enumerates the builder field-presence subsets, the mutation-class verdict table and the
+   boundary values of every numeric builder input (timestamp, expiry, cltv delta, amount,
+   description length; BOLT-12 amount, quantity, absolute expiry, created_at, relative expiry).
 2. Every maximal derivation state is a driver script, every presence subset a case; the Rust
    engine `payreq` executes them on the real lightning-invoice / lightning::offers code with seeded
    values and records builds, round trips, mutations + parse observations and verify answers.
@@ -18,7 +20,8 @@ PID = "C18"
 ACTIONS = ["MCreateOffer", "MCreateRefund", "MAlter", "MRequest", "MRespond", "MRespondRefund",
            "MVerifyReqAccept", "MVerifyReqRefuseAltered", "MVerifyReqRefuseOther",
            "MVerifyInvAccept", "MVerifyInvRefuseAltered", "MVerifyInvRefuseOther",
-           "MCase11", "MCase12", "MRoundTrip"]
+           "MCase11", "MCase12", "MRoundTrip",
+           "MCaseNum11Built", "MCaseNum11Refused", "MCaseNum12Built", "MCaseNum12Refused", "MCaseInv12"]
 CHUNK = 250000
 
 
@@ -99,6 +102,49 @@ def selftest(wd, recs):
     if k is not None:
         muts.append(("bitflip-parsed", flipped(k, parsed=True)))
         muts.append(("panic-inserted", recs[:k] + [{"run": recs[k]["run"], "ev": "panic"}] + recs[k:]))
+    # part (iii): admissible inputs, exposed numbers, assembled strings
+    def run_of(k):
+        return [j for j, r in enumerate(recs) if r["run"] == recs[k]["run"]]
+
+    def without_followers(k, evs, **kw):
+        """record k changed, the later records of its run with an event in `evs` dropped"""
+        drop = {j for j in run_of(k) if j > k and recs[j]["ev"] in evs}
+        m = [dict(x) for j, x in enumerate(recs) if j not in drop]
+        m[k - sum(1 for j in drop if j < k)].update(kw)
+        return m
+
+    k = first(lambda r: r["ev"] == "case" and r["fmt"] == "n11" and r["built"])
+    if k is not None:
+        muts.append(("admissible-b11-input-refused", without_followers(k, ("roundtrip", "exposed"), built=False)))
+    k = first(lambda r: r["ev"] == "case" and r["fmt"] == "n11" and not r["built"]
+              and r["err"] in ("TimestampOutOfBounds", "DescriptionTooLong"))
+    if k is not None:
+        muts.append(("unrepresentable-b11-input-accepted", flipped(k, built=True)))
+    k = first(lambda r: r["ev"] == "case" and r["fmt"] == "b11" and r["built"])
+    if k is not None:
+        muts.append(("presence-subset-refused",
+                     without_followers(k, ("roundtrip", "exposed", "mut11"), built=False)))
+    k = first(lambda r: r["ev"] == "case" and r["fmt"] == "n12" and r["built"])
+    if k is not None:
+        muts.append(("admissible-b12-input-refused", without_followers(k, ("roundtrip", "exposed"), built=False)))
+    k = first(lambda r: r["ev"] == "case" and r["fmt"] == "i12" and r["built"])
+    if k is not None:
+        muts.append(("admissible-invoice-input-refused",
+                     without_followers(k, ("roundtrip", "exposed", "mut12"), built=False)))
+    k = first(lambda r: r["ev"] == "exposed" and "ts" in r["vals"])
+    if k is not None:
+        v = dict(recs[k]["vals"])
+        v["ts"] = [0, 0, 77]
+        muts.append(("accessor-exposes-other-timestamp", flipped(k, vals=v)))
+    k = first(lambda r: r["ev"] == "assembled" and r["canon"] and r["parsed"] and r["kind"] == "b11")
+    if k is not None:
+        muts.append(("assembled-string-reserialises-differently", flipped(k, reser=False)))
+        v = dict(recs[k]["got"])
+        v["cltv"] = [0, 0, 99]
+        muts.append(("assembled-string-exposes-other-number", flipped(k, got=v)))
+        muts.append(("assembled-string-names-other-signer", flipped(k, signer_eq=False)))
+        muts.append(("assembled-string-panics",
+                     recs[:k] + [{"run": recs[k]["run"], "ev": "panic", "where": "assembled b11"}] + recs[k + 1:]))
     rejected = 0
     for name, m in muts:
         p = os.path.join(wd, "selftest-%s.ndjson" % name)
@@ -110,7 +156,7 @@ def selftest(wd, recs):
             rejected += 1
         else:
             vlib.log("[selftest] corruption %s was NOT rejected" % name)
-    if rejected != len(muts) or len(muts) < 8:
+    if rejected != len(muts) or len(muts) < 20:
         raise vlib.ToolError("binding self-test: %d of %d corrupted traces rejected" % (rejected, len(muts)))
     return {"mutations": len(muts), "rejected": rejected, "corruptions": [n for n, _ in muts]}
 
@@ -142,19 +188,40 @@ def run(tier, seed):
     cap = 40000 if thorough else 10000
     if len(scripts) > cap:
         scripts = rng.sample(scripts, cap)
+    uniq, seen = [], set()
+    for c in cases:       # (a "may" input is enumerated with both answers)
+        k = json.dumps(c, sort_keys=True)
+        if k not in seen:
+            seen.add(k)
+            uniq.append(c)
+    cases = uniq
     b11 = [c for c in cases if c["fmt"] == "b11"]
     b12 = [c for c in cases if c["fmt"] == "b12"]
     rng.shuffle(b11)
     rng.shuffle(b12)
     if not thorough:
         b11, b12 = b11[:260], b12[:400]
+    # numeric boundary cases: every case with at most two fields off their ordinary value, a seeded
+    # sample of the other combinations (thorough: all of them)
+    nums = []
+    for fmt, extra in (("n11", 700), ("n12", 150), ("i12", 48)):
+        cs = sorted((c for c in cases if c["fmt"] == fmt), key=lambda c: (c["off"], json.dumps(c, sort_keys=True)))
+        near = [c for c in cs if c["off"] <= 2]
+        far = [c for c in cs if c["off"] > 2]
+        if not thorough and len(far) > extra:
+            far = rng.sample(far, extra)
+        nums += near + far
+    ncases_num = len(nums)
+    if not [c for c in nums if c["fmt"] == "n11"] or not [c for c in nums if c["fmt"] == "n12"]:
+        raise vlib.ToolError("TLC produced no numeric boundary cases")
+    all_cases = b11 + b12 + nums
     spath = os.path.join(wd, "scripts.ndjson")
     with open(spath, "w") as f:
         for s in scripts:
             f.write(json.dumps(s) + "\n")
     cpath = os.path.join(wd, "cases.ndjson")
     with open(cpath, "w") as f:
-        for c in b11 + b12:
+        for c in all_cases:
             f.write(json.dumps(c) + "\n")
 
     # single-bit sweeps of offers / refunds / echoed requests: every key mode, several objects each
@@ -179,18 +246,6 @@ def run(tier, seed):
     vlib.log("[payreq] %.0fs %s" % (time.time() - te, {k: v for k, v in summ.items() if not isinstance(v, dict)}))
     vlib.log("[payreq] b11 mutations %s" % summ["b11_mut"])
     vlib.log("[payreq] b12 mutations %s" % summ["b12_mut"])
-    # vacuity guards on the driver
-    if summ["b11_built"] * 10 < summ["b11_cases"] * 9 or summ["b12_built"] * 10 < summ["b12_cases"] * 9:
-        raise vlib.ToolError("builders refused more than 10% of the presence subsets: driver is not exercising them")
-    if summ["accepts"] == 0 or summ["accepts"] * 2 > summ["verifies"]:
-        raise vlib.ToolError("verification answers look vacuous: %d accepts of %d" % (summ["accepts"], summ["verifies"]))
-    if summ["sweep_judged"] * 3 < summ["sweep_bits"] or summ["sweep_judged"] < 1000:
-        raise vlib.ToolError("single-bit sweep is vacuous: %d of %d altered copies were usable" %
-                             (summ["sweep_judged"], summ["sweep_bits"]))
-    if summ["proto_build_failed"] * 20 > summ["proto_runs"]:
-        raise vlib.ToolError("%d of %d protocol scripts stopped at a failed builder call: driver is not "
-                             "exercising the derivation chains" % (summ["proto_build_failed"], summ["proto_runs"]))
-
     # ---- 3. trace validation (the oracle)
     parts = split_trace(tpath)
     total, fails = 0, []
@@ -204,7 +259,7 @@ def run(tier, seed):
     vlib.log("[trace] %d events in %d chunk(s) validated in %.0fs, %d rejected run(s)" %
              (total, len(parts), time.time() - tv, len(fails)))
     nscr = len(scripts)
-    ncase = len(b11) + len(b12)
+    ncase = len(all_cases)
     nfull = args[args.index("--full") + 1]
     nviol = 0
     for fl in fails:
@@ -212,7 +267,7 @@ def run(tier, seed):
         if runid <= nscr:
             inp = {"script": scripts[runid - 1]}
         elif runid <= nscr + ncase:
-            inp = {"case": (b11 + b12)[runid - nscr - 1]}
+            inp = {"case": all_cases[runid - nscr - 1]}
         elif fl["run_events"] and fl["run_events"][0].get("part") == "sweep":
             r0 = fl["run_events"][0]
             inp = {"sweep": r0["directive"], "first_run": r0["first_run"], "batch": r0["batch"],
@@ -221,6 +276,8 @@ def run(tier, seed):
         else:
             inp = {"fuzz_batch": runid - nscr - ncase}
         key = "panic" if fl["rec"].get("ev") == "panic" else None
+        if fl["rec"].get("ev") == "panic" and "input" in fl["rec"]:
+            inp["panicking_input"] = fl["rec"]["input"]
         evs = fl["run_events"]
         if len(evs) > 400:
             evs = evs[:20] + [{"elided": len(evs) - 60}] + evs[max(20, fl["pos_in_run"] - 20):fl["pos_in_run"] + 20]
@@ -238,10 +295,29 @@ def run(tier, seed):
                 key=key):
             nviol += 1
 
+    # ---- vacuity guards on the driver: "nothing was exercised" is a tool error -- but a refusal or a
+    # parse failure is an observation the spec has judged above, and a run with violations is a
+    # verdict, never a tool error
+    if nviol == 0 and not fails:
+        if summ["b11_built"] == 0 or summ["b12_built"] == 0 or summ["n11_built"] == 0 or summ["n12_built"] == 0:
+            raise vlib.ToolError("a builder family never built anything: %s" %
+                                 {k: summ[k] for k in summ if k.endswith("_built") or k.endswith("_cases")})
+        if summ["assembled_parsed"] * 2 < summ["assembled"] or summ["assembled"] < summ["n11_cases"]:
+            raise vlib.ToolError("hand-assembled strings / streams are not exercising the parsers: %d of %d parsed" %
+                                 (summ["assembled_parsed"], summ["assembled"]))
+        if summ["accepts"] == 0 or summ["accepts"] * 2 > summ["verifies"]:
+            raise vlib.ToolError("verification answers look vacuous: %d accepts of %d" % (summ["accepts"], summ["verifies"]))
+        if summ["sweep_judged"] * 3 < summ["sweep_bits"] or summ["sweep_judged"] < 1000:
+            raise vlib.ToolError("single-bit sweep is vacuous: %d of %d altered copies were usable" %
+                                 (summ["sweep_judged"], summ["sweep_bits"]))
+        if summ["proto_build_failed"] * 20 > summ["proto_runs"]:
+            raise vlib.ToolError("%d of %d protocol scripts stopped at a failed derivation step: driver is not "
+                                 "exercising the derivation chains" % (summ["proto_build_failed"], summ["proto_runs"]))
+
     # ---- 4. binding self-test: head of the protocol runs + one table case of each format
     st = None
     if not fails:
-        head, want = [], {"proto": 120, "b11": 6, "b12": 6, "sweep": 12}
+        head, want = [], {"proto": 120, "b11": 6, "b12": 6, "sweep": 12, "n11": 60, "n12": 12, "i12": 4}
         with open(tpath) as f:
             part, keep, full_b11 = None, False, nfull
             for ln in f:
@@ -264,7 +340,8 @@ def run(tier, seed):
     with open(tpath) as f:
         for ln in f:
             rec = json.loads(ln)
-            if rec["ev"] in ("verify_invreq", "verify_invoice", "mut11", "mut12", "roundtrip"):
+            if rec["ev"] in ("verify_invreq", "verify_invoice", "mut11", "mut12", "roundtrip", "case", "exposed",
+                             "assembled"):
                 rec.pop("run", None)
                 n_judged += 1
                 if not (rec["ev"] == "mut11" and rec["cls"] == "char"):   # same digest as vlib.distinct_count
@@ -275,7 +352,9 @@ def run(tier, seed):
         "evaluations": n_judged,
         "distinct_nontrivial": len(distinct),
         "rule": "TLC-enumerated derivation chains (<=%s objects, 2 parties, 3 key modes, alterations, key swaps) and "
-                "builder presence subsets x mutation classes; values, positions and bits seeded (seed %d)" %
+                "builder presence subsets x mutation classes; boundary values (0, 1, max-1, max, max+1) of "
+                "every numeric builder input through the builders and through hand-assembled strings / TLV "
+                "streams; other values, positions and bits seeded (seed %d)" %
                 ("5" if thorough else "4", seed),
         "samples": [scripts[0], b11[0], b12[0]] + samples_ev,
         "mc_protocol_model": {"cfg": cfg, "distinct_states": mc["distinct"], "generated": mc["states"],
@@ -285,6 +364,7 @@ def run(tier, seed):
         "single_bit_sweeps": {"objects": len(sweeps), "bits_flipped": summ["sweep_bits"],
                               "altered_copies_judged": summ["sweep_judged"]},
         "scripts_run": nscr, "b11_cases_run": len(b11), "b12_cases_run": len(b12),
+        "numeric_boundary_cases_run": ncases_num,
         "events_validated": total, "engine": summ, "impl_panics": summ["panics"],
         "binding_selftest": st, "exhaustive": False,
     }
